@@ -144,7 +144,9 @@ class LinSpaceBuilder(ProgramBuilder):
         voltages = sorted((self._name_to_idx[ch_name], value) for ch_name, value in voltages.items())
         voltages = [value for _, value in voltages]
 
-        ranges = self._get_ranges()
+        # all open iterations, outermost first. An index name may occur twice: the inner loop then shadows the outer one
+        # (a dict keyed by name would drop the outer level and the factor tuple would be shorter than the nesting depth)
+        ranges = self._ranges
         factors = []
         bases = []
         for value in voltages:
@@ -156,11 +158,11 @@ class LinSpaceBuilder(ProgramBuilder):
             offsets = value.offsets
             base = value.base
             incs = []
-            for rng_name, rng in ranges.items():
+            for level, (rng_name, rng) in enumerate(ranges):
                 start = 0.
                 step = 0.
                 offset = offsets.get(rng_name, None)
-                if offset:
+                if offset and all(inner_name != rng_name for inner_name, _ in ranges[level + 1:]):
                     start += rng.start * offset
                     step += rng.step * offset
                 base += start
